@@ -380,6 +380,47 @@ def retryIds : List Str := ["premium-invalidLicense".toList, "premium-internalEr
 
 def hasInternal (fs : List Finding) : Bool := fs.any fun f => retryIds.contains f.id
 
+/-! ### the cache document: children of `<analyzerinfo>` in file order -/
+
+/-- a child element of the root of a cache file: a finding (`<error>`) or whole-program information (`<FileInfo>`, content `I`) -/
+inductive DocChild (I : Type) where
+  | error (f : Finding)
+  | fileInfo (i : I)
+  deriving Repr
+
+/-- CppCheck::checkInternal analyses the preprocessor configurations one after the other; each writes its findings
+    (CppCheckLogger::reportErr → AnalyzerInformation::reportErr) and then its `<FileInfo>` elements (checkNormalTokens → setFileInfo):
+    the document is `[errors ++ fileinfos]*` -/
+def writeDoc {I : Type} (blocks : List (List Finding × List I)) : List (DocChild I) :=
+  blocks.flatMap fun b => b.1.map DocChild.error ++ b.2.map DocChild.fileInfo
+
+def DocChild.error? {I : Type} : DocChild I → Option Finding
+  | .error f => some f
+  | .fileInfo _ => none
+
+def DocChild.isError {I : Type} : DocChild I → Bool
+  | .error _ => true
+  | .fileInfo _ => false
+
+/-- how AnalyzerInformation::skipAnalysis walks the children -/
+inductive ReaderKind where
+  /-- every child of the root, `continue` on elements that are not `<error>` (the code) -/
+  | allChildren
+  /-- from the first `<error>` up to the first child that is not one -/
+  | errorPrefix
+  deriving DecidableEq, Repr
+
+/-- skipAnalysis: the findings read back from a cache document – ALL `<error>` children regardless of position -/
+def cachedErrors {I : Type} (doc : List (DocChild I)) : List Finding := doc.filterMap DocChild.error?
+
+/-- the reader that stops at the first child that is not an `<error>` -/
+def cachedErrorsPrefix {I : Type} (doc : List (DocChild I)) : List Finding :=
+  ((doc.dropWhile fun c => !c.isError).takeWhile DocChild.isError).filterMap DocChild.error?
+
+def readErrors {I : Type} : ReaderKind → List (DocChild I) → List Finding
+  | .allChildren => cachedErrors
+  | .errorPrefix => cachedErrorsPrefix
+
 /-- the declared input of the per-file analysis: path, non-comment tokens with their full locations, header names and
     their non-comment tokens, and the analysis options -/
 structure View where
